@@ -792,3 +792,67 @@ def sink_selected_calls(fn) -> int:
   if count:
     ast.fix_missing_locations(fn)
   return count
+
+
+def dispatch_table_calls(fn) -> int:
+  """`h = {'a': f, 'b': g}.get(x)` / `if h is None: <raise ...>` / `h(args)`
+  (h used nowhere else) reads as `if x == 'a': f(args) elif x == 'b': g(args)
+  else: <raise ...>`: the table's values are plain names / attributes, so
+  looking them up eagerly or at the branch is the same."""
+  if not isinstance(fn, (ast.FunctionDef, ast.AsyncFunctionDef)):
+    return 0
+  count = 0
+  for block in _blocks(fn):
+    i = 0
+    while i + 2 < len(block) + 0 and i + 2 <= len(block) - 1:
+      a, guard, use = block[i], block[i + 1], block[i + 2]
+      i += 1
+      if not (isinstance(a, ast.Assign) and len(a.targets) == 1 and isinstance(
+          a.targets[0], ast.Name) and isinstance(a.value, ast.Call) and
+              isinstance(a.value.func, ast.Attribute) and
+              a.value.func.attr == 'get' and isinstance(
+                  a.value.func.value, ast.Dict) and len(a.value.args) == 1 and
+              isinstance(a.value.args[0], ast.Name)):
+        continue
+      h, d, x = a.targets[0].id, a.value.func.value, a.value.args[0]
+      if not (d.keys and all(isinstance(k, ast.Constant) for k in d.keys) and
+              all(isinstance(v, (ast.Name, ast.Attribute)) and not any(
+                  isinstance(z, (ast.Call, ast.Subscript)) for z in ast.walk(v))
+                  for v in d.values)):
+        continue
+      t = guard.test if isinstance(guard, ast.If) else None
+      if not (isinstance(t, ast.Compare) and len(t.ops) == 1 and isinstance(
+          t.ops[0], ast.Is) and isinstance(t.left, ast.Name) and
+              t.left.id == h and isinstance(t.comparators[0], ast.Constant) and
+              t.comparators[0].value is None and not guard.orelse and
+              guard.body and isinstance(guard.body[-1], (ast.Raise,
+                                                        ast.Return))):
+        continue
+      call = use.value if isinstance(use, (ast.Expr, ast.Return)) else None
+      if not (isinstance(call, ast.Call) and isinstance(
+          call.func, ast.Name) and call.func.id == h):
+        continue
+      n_uses = sum(1 for z in _walk_own(fn) if isinstance(z, ast.Name) and
+                   z.id == h)
+      if n_uses != 3 or any(isinstance(z, ast.Name) and z.id == h
+                            for arg in list(call.args) + [
+                                k.value for k in call.keywords]
+                            for z in ast.walk(arg)):
+        continue
+      chain = list(guard.body)
+      for k, v in reversed(list(zip(d.keys, d.values))):
+        c2 = copy.deepcopy(call)
+        c2.func = copy.deepcopy(v)
+        st = ast.Return(value=c2) if isinstance(use, ast.Return) else ast.Expr(
+            value=c2)
+        test = ast.Compare(left=copy.deepcopy(x), ops=[ast.Eq()],
+                           comparators=[copy.deepcopy(k)])
+        chain = [ast.If(test=test, body=[st], orelse=chain)]
+      new = chain[0]
+      ast.copy_location(new, a)
+      idx = block.index(a)
+      block[idx:idx + 3] = [new]
+      count += 1
+  if count:
+    ast.fix_missing_locations(fn)
+  return count
